@@ -165,6 +165,19 @@ def impl_eval_inner(case):
         fobj = io.BytesIO(head + data)
         fobj.seek(len(head))
         back, exc = read_all(mciipm.VbsReader(fobj, blocked=blocked))
+    elif case.get('rbfile'):
+        # read back from a REAL file opened 'rb' (a buffered reader: it has peek(), readinto(), a buffer of its own whose
+        # edges fall anywhere in the records), default and tiny buffer sizes
+        import os
+        import tempfile
+        fd, path = tempfile.mkstemp(prefix='verif_c03_')
+        try:
+            os.write(fd, data)
+            os.close(fd)
+            with open(path, 'rb', buffering=case['rbfile']) as fh:
+                back, exc = read_all(mciipm.VbsReader(fh, blocked=blocked))
+        finally:
+            os.unlink(path)
     else:
         back, exc = read_all(mciipm.VbsReader(io.BytesIO(data), blocked=blocked))
     why = None
@@ -245,6 +258,12 @@ def explore(run, tier):
         for h in ('40', '00', 'ff', '41424344', '0a'):
             cases.append({'b': 1, 'hex': [(h * (n // (len(h) // 2)))[:2 * n]], 'api': 'class'})
             cases.append({'b': 1, 'hex': ['01', (h * (n // (len(h) // 2)))[:2 * n], '02'], 'api': 'func'})
+    # files read back through a real buffered file object: thousands of tiny records (length prefixes straddle every
+    # buffer edge), default buffer and buffers of 16 / 4096 bytes
+    for b in (0, 1):
+        for lens, buf in (([3] * 4000, -1), ([3] * 4000, 4096), ([1, 2, 3, 5] * 700, -1), ([5] * 50, 16), ([1000, 1012, 7], 16),
+                          ([2040] * 9, -1), ([1] * 9000, -1)):
+            cases.append({'b': b, 'lens': lens, 'api': 'class', 'rbfile': buf})
     # one-shot iterators as input; files of more than 64 KiB (65+ blocks), blocked and unblocked
     for b in (0, 1):
         for lens in ([5], [1, 2, 3], [1000, 1012, 7], [ml], [], [100], [1004], [1008, 1008, 40], [3, 4, 5, 6, 7, 8]):
